@@ -927,6 +927,47 @@ mod tests {
 #[allow(missing_docs)]
 pub mod verif_hooks {
 	use super::*;
+	/// Runs the real `create_recv_pending_htlc_info` on a plain (non-blinded, non-keysend)
+	/// `Hop::Receive`; returns the accepted HTLC's `(incoming_cltv_expiry, outgoing_amt_msat)`.
+	pub fn create_recv_probe(
+		onion_amt_msat: u64, onion_cltv_expiry: u32, total_msat: u64, amt_msat: u64, cltv_expiry: u32,
+		allow_underpay: bool, counterparty_skimmed_fee_msat: Option<u64>, current_height: u32,
+	) -> Result<(u32, u64), LocalHTLCFailureReason> {
+		let hop = onion_utils::Hop::Receive {
+			hop_data: msgs::InboundOnionReceivePayload {
+				payment_data: Some(msgs::FinalOnionHopData {
+					payment_secret: crate::types::payment::PaymentSecret([1; 32]),
+					total_msat,
+				}),
+				payment_metadata: None,
+				keysend_preimage: None,
+				custom_tlvs: Vec::new(),
+				sender_intended_htlc_amt_msat: onion_amt_msat,
+				cltv_expiry_height: onion_cltv_expiry,
+			},
+			shared_secret: bitcoin::secp256k1::ecdh::SharedSecret::from_bytes([2; 32]),
+		};
+		super::create_recv_pending_htlc_info(
+			hop,
+			[2; 32],
+			PaymentHash([3; 32]),
+			amt_msat,
+			cltv_expiry,
+			None,
+			allow_underpay,
+			counterparty_skimmed_fee_msat,
+			false,
+			current_height,
+		)
+		.map(|info| {
+			let cltv = match info.routing {
+				PendingHTLCRouting::Receive { incoming_cltv_expiry, .. } => incoming_cltv_expiry,
+				_ => u32::MAX,
+			};
+			(cltv, info.outgoing_amt_msat)
+		})
+		.map_err(|e| e.reason)
+	}
 	pub fn check_incoming_htlc_cltv(
 		cur_height: u32, outgoing_cltv_value: u32, cltv_expiry: u32, min_cltv_expiry_delta: u16,
 	) -> Result<(), LocalHTLCFailureReason> {
